@@ -324,7 +324,7 @@ func checkC02(c *Check) {
 		// "find, then act": the scan only looks the session up (it stores
 		// the match into result variables of its function), and the bind,
 		// the flush and the parking follow the call of that finder
-		scope := cb // the function inside which a bind must be followed by the flush
+		scope := cb                   // the function inside which a bind must be followed by the flush
 		var anchors []ssa.Instruction // in cb: where the matching session is taken (bind, or store of the match)
 		finder := false
 		if len(binds) == 0 {
@@ -711,7 +711,6 @@ func isZeroLenSlice(s *ssa.Slice) bool {
 	return ok && k.Value != nil && k.Int64() == 0
 }
 
-
 // queuePrivate: the hold queue of a session object is storage of that
 // object alone. Every store to the queue field is nil, or append(<the same
 // object's queue>, ...); every read of the field is used only for len/cap,
@@ -868,7 +867,6 @@ func queuePrivate(c *Check, t *Tracker) {
 	c.Floor("uses of the hold-queue field examined", 6, n)
 }
 
-
 // inFnOrHelper: the fact was recorded in fn or in a function called (in this
 // walk) from fn.
 func inFnOrHelper(f TFact, fn *ssa.Function) bool {
@@ -891,7 +889,6 @@ func inFnOrHelper(f TFact, fn *ssa.Function) bool {
 	}
 	return false
 }
-
 
 // flagCellOf: the local boolean variable a guard atom tests: a load of the
 // variable, or result i of a repository function all of whose returns give
@@ -965,7 +962,6 @@ func returnedCell(p *Prog, cl *ssa.Call, idx int) *ssa.Alloc {
 	return cell
 }
 
-
 // samePath: some path of s's function passes both facts (one reaches the
 // other); facts on different branches that each return do not belong to the
 // same code path.
@@ -979,7 +975,6 @@ func samePath(f, s TFact) bool {
 	}
 	return reachesInstr(fl, s.Ins) || reachesInstr(s.Ins, fl)
 }
-
 
 // readsSliceOnly: the slice parameter is used only for len/cap, indexing and
 // ranging inside its function (it is not stored, appended to, re-sliced into
